@@ -326,6 +326,114 @@ pub fn diff_sizes(x: &BTreeMap<String, usize>, y: &BTreeMap<String, usize>, igno
     if all.is_empty() { None } else { Some(all.join("; ")) }
 }
 
+/// every differing line of two dumps, paired by (section, first two tokens of the line)
+pub fn diff_dump_all(x: &BTreeMap<String, Vec<String>>, y: &BTreeMap<String, Vec<String>>) -> Vec<(String, Option<String>, Option<String>)> {
+    fn key(l: &str) -> String {
+        l.split_whitespace().take(2).collect::<Vec<_>>().join(" ")
+    }
+    let mut out = Vec::new();
+    let secs: BTreeSet<&String> = x.keys().chain(y.keys()).collect();
+    let empty = Vec::new();
+    for sec in secs {
+        let (a, b) = (x.get(sec).unwrap_or(&empty), y.get(sec).unwrap_or(&empty));
+        if a == b {
+            continue;
+        }
+        let mut bm: BTreeMap<String, Vec<&String>> = BTreeMap::new();
+        for l in b {
+            bm.entry(key(l)).or_default().push(l);
+        }
+        for l in a {
+            let k = key(l);
+            match bm.get_mut(&k).and_then(|v| if v.is_empty() { None } else { Some(v.remove(0)) }) {
+                Some(m) => {
+                    if m != l {
+                        out.push((sec.clone(), Some(l.clone()), Some(m.clone())));
+                    }
+                }
+                None => out.push((sec.clone(), Some(l.clone()), None)),
+            }
+        }
+        for (_, rest) in bm {
+            for m in rest {
+                out.push((sec.clone(), None, Some(m.clone())));
+            }
+        }
+    }
+    out
+}
+
+/// which observable differs: the symptom kind of one differing dump line
+pub fn symptom_of(section: &str, a: &Option<String>, b: &Option<String>) -> String {
+    let any = a.as_ref().or(b.as_ref()).cloned().unwrap_or_default();
+    if section.starts_with("diag:") {
+        let code = any.split_whitespace().nth(1).unwrap_or("?").to_string();
+        return match code.as_str() {
+            "deprecated" => "deprecated-diag".into(),
+            "undefined-field" => "undefined-field-diag".into(),
+            c => format!("diag:{c}"),
+        };
+    }
+    if section.starts_with("sem:") {
+        let tok = any.split_whitespace().nth(1).unwrap_or("").to_string();
+        let is_global = tok.starts_with('G');
+        let (Some(a), Some(b)) = (a, b) else { return format!("token-set:{tok}") };
+        // `<off> <tok> : TYPE => DECL ## DOC`
+        let parts = |l: &str| -> (String, String, String) {
+            let (head, doc) = l.rsplit_once(" ## ").unwrap_or((l, ""));
+            let (ty, decl) = head.rsplit_once(" => ").unwrap_or((head, ""));
+            (ty.to_string(), decl.to_string(), doc.to_string())
+        };
+        let (pa, pb) = (parts(a), parts(b));
+        if pa.0 == pb.0 && pa.1 == pb.1 {
+            return "hover-doc".into();
+        }
+        if pa.0 != pb.0 {
+            return if is_global { "global-type".into() } else { format!("type-of:{tok}") };
+        }
+        return if is_global { "global-decl".into() } else { format!("decl-of:{tok}") };
+    }
+    if section == "types" {
+        let (Some(a), Some(b)) = (a, b) else { return "type-set".into() };
+        let field = |l: &str, name: &str| -> String {
+            let pat = format!(" {name}=");
+            match l.find(&pat) {
+                Some(p) => {
+                    let rest = &l[p + pat.len()..];
+                    if name == "doc" { rest.to_string() } else { rest.split(']').next().unwrap_or("").to_string() }
+                }
+                None => String::new(),
+            }
+        };
+        for f in ["supers", "members", "locs"] {
+            if field(a, f) != field(b, f) {
+                return format!("type-{f}");
+            }
+        }
+        return "hover-doc".into();
+    }
+    if section == "globals" {
+        return "globals".into();
+    }
+    format!("section:{section}")
+}
+
+/// symptom kinds of grown entry counts (`"k: a -> b; …"` as produced by `grown_sizes`)
+pub fn count_symptoms(grown: &str) -> Vec<String> {
+    grown
+        .split("; ")
+        .map(|e| {
+            let k = e.split(':').next().unwrap_or("");
+            let idx = k.split('.').next().unwrap_or("");
+            match idx {
+                "property" => "count:property".to_string(),
+                "member" => "count:member".to_string(),
+                _ => format!("count:{k}"),
+            }
+        })
+        .collect()
+}
+
 /// entries of `y` (after) that exceed `x` (before): indexed state that grew
 pub fn grown_sizes(x: &BTreeMap<String, usize>, y: &BTreeMap<String, usize>) -> Option<String> {
     let mut all = Vec::new();
@@ -461,8 +569,19 @@ pub fn class_bound_to_required_table(c: &WsCase) -> bool {
     false
 }
 
-/// classes / aliases / enums / globals declared in two or more files of the case (any variant)
 pub fn symbol_shared_across_files(c: &WsCase) -> bool {
+    shared_symbols(c, true, true)
+}
+/// a class / alias / enum declared in two or more files of the case (any variant)
+pub fn type_shared_across_files(c: &WsCase) -> bool {
+    shared_symbols(c, true, false)
+}
+/// a global (`G = …`, `G.f = …`, `function G…(`) declared in two or more files of the case (any variant)
+pub fn global_shared_across_files(c: &WsCase) -> bool {
+    shared_symbols(c, false, true)
+}
+
+fn shared_symbols(c: &WsCase, types: bool, globals: bool) -> bool {
     let mut seen: BTreeMap<String, BTreeSet<usize>> = BTreeMap::new();
     for (i, (_, vs)) in c.files.iter().enumerate() {
         for v in vs {
@@ -473,14 +592,16 @@ pub fn symbol_shared_across_files(c: &WsCase) -> bool {
                             continue;
                         }
                         let name: String = rest.chars().take_while(|c| c.is_alphanumeric() || *c == '_').collect();
-                        seen.entry(name).or_default().insert(i);
+                        if types {
+                            seen.entry(name).or_default().insert(i);
+                        }
                     }
                 }
                 // globals: `G = …`, `G.f = …`, `function G…(`
                 let l = line.strip_prefix("function ").unwrap_or(line);
                 let name: String = l.chars().take_while(|c| c.is_alphanumeric() || *c == '_').collect();
                 let rest = &l[name.len()..];
-                if !name.is_empty() && name.starts_with('G') && (rest.starts_with(" = ") || rest.starts_with('.') || rest.starts_with('(')) {
+                if globals && !name.is_empty() && name.starts_with('G') && (rest.starts_with(" = ") || rest.starts_with('.') || rest.starts_with('(')) {
                     seen.entry(name).or_default().insert(i);
                 }
             }
